@@ -131,7 +131,8 @@ structure LoopInv (cfg : Cfg) (env : Env) (T cur0 : SV) (d : Disk) (rest : List 
 theorem loop_step (cfg : Cfg) (env : Env) (T cur0 : SV) (d : Disk) (i : Nat) (rest : List Nat)
     (s s' : RunSt) (r : Option Result)
     (h : LoopInv cfg env T cur0 d (i :: rest) s) (hrm : RM cfg env T i s s' r) :
-    (match r with | none => LoopInv cfg env T cur0 d rest s' | some _ => RunQ cfg env T cur0 d s') := by
+    (match (generalizing := false) r with
+      | none => LoopInv cfg env T cur0 d rest s' | some _ => RunQ cfg env T cur0 d s') := by
   have hsorted := List.pairwise_cons.mp h.sorted
   have hi := h.pend i (List.mem_cons_self)
   have hlt : ∀ k, k < i → k ∉ (i :: rest) := by
@@ -312,6 +313,432 @@ theorem loop_step (cfg : Cfg) (env : Env) (T cur0 : SV) (d : Disk) (i : Nat) (re
       · rcases List.mem_cons.mp hm with rfl | hm
         · exact .inl (by rw [hcur']; simp)
         · exact .inr (.inr hm)
+
+
+def Disk.cur (d : Disk) : SV := d.metaD.cur
+def Disk.last (d : Disk) : SV := d.metaD.last
+
+/-- A process that dies before its first write changes nothing. -/
+theorem run_crash0 (cfg : Cfg) (reg : Registry) (env : Env) (d : Disk) (h0 : env.crashAt = 0) :
+    (run cfg reg env d).1.disk = d ∧ (run cfg reg env d).1.log = [] := by
+  unfold run
+  simp [RunSt.dead, h0]
+
+/-- After its first write a `Run` satisfies `RunQ`. -/
+theorem run_Q (cfg : Cfg) (reg : Registry) (env : Env) (d : Disk) (h0 : env.crashAt ≠ 0) :
+    RunQ cfg env reg.target d.cur d (run cfg reg env d).1 := by
+  unfold run
+  have hd : ¬ (env.crashAt ≤ 0) := by omega
+  simp only [RunSt.dead, hd, decide_false, Bool.false_eq_true, if_false]
+  have hq1 : RunQ cfg env reg.target d.cur d
+      { (RunSt.tickEv ⟨d, d.metaD.cur, 0, []⟩ (.metaWrite ⟨d.metaD.cur, reg.target⟩)) with
+        disk := { d with md := some ⟨d.metaD.cur, reg.target⟩ } } := by
+    refine ⟨rfl, ?_, ?_, ?_, ?_, ?_, ?_, ?_⟩
+    · intro j hj; exact .inl hj
+    · intro j hj; exact hj
+    · intro j hj; simp [RunSt.tickEv] at hj
+    · intro j hj; simp at hj
+    · intro j hj hj0; simp [RunSt.tickEv] at hj; rw [Disk.cur] at hj0; rw [hj] at hj0; cases hj0
+    · intro j c hj; simp [RunSt.tickEv] at hj
+    · simp [RunSt.tickEv, callIdxs]
+  split
+  · exact hq1
+  split
+  · exact hq1
+  · refine runLoop_inv cfg env reg.target (Q := RunQ cfg env reg.target d.cur d)
+      (Inv := LoopInv cfg env reg.target d.cur d) (fun l s h => h.q)
+      (fun i rest s s' r h hrm => loop_step cfg env reg.target d.cur d i rest s s' r h hrm) _ _ ?_
+    refine ⟨hq1, SV.iter_sorted _, ?_, ?_, ?_⟩
+    · intro j hj
+      have := (SV.mem_iter _ _).mp hj
+      rw [SV.has_diff] at this
+      simp only [Bool.and_eq_true, Bool.not_eq_true'] at this
+      exact ⟨this.1, this.2, this.2⟩
+    · intro k hk
+      by_cases hc : SV.has d.metaD.cur k = true
+      · exact .inl hc
+      · refine .inr (.inr ((SV.mem_iter _ _).mpr ?_))
+        rw [SV.has_diff]; simp [hk, hc]
+    · intro j hj; simp [RunSt.tickEv, callIdxs] at hj
+
+
+theorem disk_cur_of_md {d : Disk} {c l : SV} (h : d.md = some ⟨c, l⟩) : d.cur = c ∧ d.last = l := by
+  simp [Disk.cur, Disk.last, Disk.metaD, h]
+
+/-- What one start does: nothing at all (refused, or died before the first write), or a `Run`
+satisfying `RunQ`. -/
+theorem start_cases (cfg : Cfg) (d : Disk) (st : Start) :
+    ((start cfg d st).1 = d ∧ (start cfg d st).2.1 = []) ∨
+    (newRunner cfg st.reg d = .ok ∧ st.env.crashAt ≠ 0 ∧
+      ∃ s, RunQ cfg st.env st.reg.target d.cur d s ∧ (start cfg d st).1 = s.disk ∧ (start cfg d st).2.1 = s.log) := by
+  unfold start
+  cases hn : newRunner cfg st.reg d with
+  | optOut => exact .inl ⟨rfl, rfl⟩
+  | downgrade => exact .inl ⟨rfl, rfl⟩
+  | ok =>
+    by_cases h0 : st.env.crashAt = 0
+    · have := run_crash0 cfg st.reg st.env d h0
+      exact .inl ⟨this.1, this.2⟩
+    · exact .inr ⟨rfl, h0, _, run_Q cfg st.reg st.env d h0, rfl, rfl⟩
+
+/-- `Migrate` of `j` returned `(nil, nil)`. -/
+def Completed (log : List Event) (j : Nat) : Prop := ∃ c, Event.ret j none .none c ∈ log
+/-- `Migrate` of `j` returned `(nil, err)` with `errors.Is(err, ctx.Err())` after cancellation. -/
+def NilCtx (log : List Event) (j : Nat) : Prop := Event.ret j none .ctx true ∈ log
+
+theorem start_applied (cfg : Cfg) (d : Disk) (st : Start) (j : Nat)
+    (h : (start cfg d st).1.cur.has j = true) :
+    d.cur.has j = true ∨ Completed (start cfg d st).2.1 j ∨
+      (cfg.markOnNilCtx = true ∧ NilCtx (start cfg d st).2.1 j) := by
+  rcases start_cases cfg d st with ⟨h1, _⟩ | ⟨_, _, s, hq, h1, h2⟩
+  · rw [h1] at h; exact .inl h
+  · rw [h1, (disk_cur_of_md hq.md).1] at h
+    rcases hq.cur_sub j h with h3 | ⟨_, h3⟩
+    · exact .inl h3
+    · obtain ⟨c, hc, hh⟩ := hq.apply_ret j h3
+      rw [h2]
+      rcases hh with hh | ⟨hm, hh, hc'⟩
+      · rw [hh] at hc; exact .inr (.inl ⟨c, hc⟩)
+      · rw [hh, hc'] at hc; exact .inr (.inr ⟨hm, hc⟩)
+
+theorem starts_applied (cfg : Cfg) (sts : List Start) : ∀ (d : Disk) (j : Nat),
+    (starts cfg d sts).1.cur.has j = true →
+    d.cur.has j = true ∨ Completed (starts cfg d sts).2 j ∨
+      (cfg.markOnNilCtx = true ∧ NilCtx (starts cfg d sts).2 j) := by
+  induction sts with
+  | nil => intro d j h; exact .inl h
+  | cons st rest ih =>
+    intro d j h
+    simp only [starts] at h ⊢
+    rcases ih _ j h with h1 | ⟨c, h1⟩ | ⟨hm, h1⟩
+    · rcases start_applied cfg d st j h1 with h2 | ⟨c, h2⟩ | ⟨hm, h2⟩
+      · exact .inl h2
+      · exact .inr (.inl ⟨c, List.mem_append_right _ h2⟩)
+      · exact .inr (.inr ⟨hm, List.mem_append_right _ h2⟩)
+    · exact .inr (.inl ⟨c, List.mem_append_left _ h1⟩)
+    · exact .inr (.inr ⟨hm, List.mem_append_left _ h1⟩)
+
+/-- The applied bit and the resume token exclude each other. -/
+def Disk.Clean (d : Disk) : Prop := ∀ j, d.cur.has j = true → d.ist j = none
+
+theorem start_clean (cfg : Cfg) (d : Disk) (st : Start) (h : d.Clean) : (start cfg d st).1.Clean := by
+  rcases start_cases cfg d st with ⟨h1, _⟩ | ⟨_, _, s, hq, h1, _⟩
+  · rw [h1]; exact h
+  · rw [h1]
+    intro j hj
+    rw [(disk_cur_of_md hq.md).1] at hj
+    cases h0 : d.cur.has j with
+    | false => exact hq.ist_clear j hj h0
+    | true =>
+      have : s.disk.ist j = d.ist j := by
+        apply Classical.byContradiction
+        intro hne
+        have := (hq.ist_frame j hne).2
+        rw [h0] at this; cases this
+      rw [this]; exact h j h0
+
+theorem starts_clean (cfg : Cfg) (sts : List Start) : ∀ d : Disk, d.Clean → (starts cfg d sts).1.Clean := by
+  induction sts with
+  | nil => intro d h; exact h
+  | cons st rest ih => intro d h; simp only [starts]; exact ih _ (start_clean cfg d st h)
+
+/-- Bits are never cleared. -/
+theorem start_mono (cfg : Cfg) (d : Disk) (st : Start) (j : Nat) (h : d.cur.has j = true) :
+    (start cfg d st).1.cur.has j = true := by
+  rcases start_cases cfg d st with ⟨h1, _⟩ | ⟨_, _, s, hq, h1, _⟩
+  · rw [h1]; exact h
+  · rw [h1, (disk_cur_of_md hq.md).1]; exact hq.cur_mono j h
+
+
+theorem optOutLoop_eq_zero (n : Nat) : ∀ (l : List Nat), l.Pairwise (· < ·) →
+    (optOutLoop n l = 0 ↔ ∀ j ∈ l, n ≤ j) := by
+  intro l hl
+  cases l with
+  | nil => simp [optOutLoop]
+  | cons a rest =>
+    have hs := List.pairwise_cons.mp hl
+    simp only [optOutLoop]
+    by_cases ha : a ≥ n
+    · simp only [ha, if_true, true_iff]
+      intro j hj
+      rcases List.mem_cons.mp hj with rfl | hj
+      · exact ha
+      · have := hs.1 j hj; omega
+    · simp only [ha, if_false]
+      constructor
+      · intro h; omega
+      · intro h; exact absurd (h a List.mem_cons_self) ha
+
+/-- `validateNoOptOut` as pinned: only the bits below the registry size are looked at. -/
+theorem validateNoOptOut_pinned (cfg : Cfg) (hc : cfg.ignoreUnknownLast = true) (T last : SV) (n : Nat) :
+    validateNoOptOut cfg T last n = true ↔ ∀ j, j < n → last.has j = true → T.has j = true := by
+  unfold validateNoOptOut
+  simp only [hc, if_true]
+  split
+  · rename_i h
+    have h0 := (SV.eq_zero_iff _).mp (by simpa using h)
+    simp only [true_iff]
+    intro j _ hl
+    have := h0 j
+    rw [SV.has_diff, hl] at this
+    simpa using this
+  · rw [beq_iff_eq, optOutLoop_eq_zero n _ (SV.iter_sorted _)]
+    constructor
+    · intro h j hj hl
+      cases hT : T.has j with
+      | true => rfl
+      | false =>
+        have := h j ((SV.mem_iter _ _).mpr (by rw [SV.has_diff, hl, hT]; rfl))
+        omega
+    · intro h j hj
+      have := (SV.mem_iter _ _).mp hj
+      rw [SV.has_diff] at this
+      simp only [Bool.and_eq_true, Bool.not_eq_true'] at this
+      apply Classical.byContradiction
+      intro hlt
+      have h2 := h j (by omega) this.1
+      rw [this.2] at h2
+      cases h2
+
+/-- `validateNoOptOut` repaired: every bit of the last target must be in the target. -/
+theorem validateNoOptOut_fixed (cfg : Cfg) (hc : cfg.ignoreUnknownLast = false) (T last : SV) (n : Nat) :
+    validateNoOptOut cfg T last n = true ↔ ∀ j, last.has j = true → T.has j = true := by
+  unfold validateNoOptOut
+  simp only [hc]
+  split
+  · rename_i h
+    have h0 := (SV.eq_zero_iff _).mp (by simpa using h)
+    simp only [true_iff]
+    intro j hl
+    have := h0 j
+    rw [SV.has_diff, hl] at this
+    simpa using this
+  · rename_i h
+    simp only [Bool.false_eq_true, if_false, false_iff]
+    intro hall
+    apply h
+    rw [beq_iff_eq, SV.eq_zero_iff]
+    intro j
+    rw [SV.has_diff]
+    cases hl : last.has j with
+    | false => rfl
+    | true => simp [hall j hl]
+
+theorem validateNoVersionDowngrade_iff (cur T : SV) :
+    validateNoVersionDowngrade cur T = true ↔ ∀ j, cur.has j = true → T.has j = true :=
+  SV.contains_iff T cur
+
+theorem newRunner_ok_iff (cfg : Cfg) (reg : Registry) (d : Disk) :
+    newRunner cfg reg d = .ok ↔
+      (validateNoOptOut cfg reg.target d.last reg.length = true ∧
+       validateNoVersionDowngrade d.cur reg.target = true) := by
+  unfold newRunner Disk.last Disk.cur
+  simp only []
+  cases h1 : validateNoOptOut cfg reg.target d.metaD.last reg.length <;>
+    cases h2 : validateNoVersionDowngrade d.metaD.cur reg.target <;> simp
+
+
+/-- An undisturbed environment: every migration completes, nobody cancels, nothing dies. A `Run`
+makes at most 1 + 3·64 ticks. -/
+structure Env.Undisturbed (env : Env) : Prop where
+  beh : ∀ i, env.beh i = ⟨false, none, .none⟩
+  noCancel : 200 ≤ env.cancelAt
+  noCrash : 200 ≤ env.crashAt
+
+def applyAll (last : SV) (l : List Nat) (s : RunSt) : RunSt :=
+  l.foldl (fun s i =>
+    { disk := { (s.disk.setIst i none) with md := some ⟨SV.set s.cur i, last⟩ },
+      cur := SV.set s.cur i, tick := s.tick + 3,
+      log := .apply i :: .ret i none .none false :: .call i s.cur :: .before i (s.disk.ist i) :: s.log }) s
+
+theorem runMigration_clean (cfg : Cfg) (env : Env) (last : SV) (i : Nat) (s : RunSt)
+    (hb : env.beh i = ⟨false, none, .none⟩) (hc : s.tick + 3 ≤ env.cancelAt) (hd : s.tick + 3 ≤ env.crashAt) :
+    runMigration cfg env last i s = (applyAll last [i] s, none) := by
+  have h1 : ¬ env.crashAt ≤ s.tick := by omega
+  have h2 : ¬ env.crashAt ≤ s.tick + 1 := by omega
+  have h3 : ¬ env.crashAt ≤ s.tick + 1 + 1 := by omega
+  have h4 : ¬ env.cancelAt ≤ s.tick + 1 + 1 := by omega
+  simp [runMigration, applyAll, RunSt.dead, RunSt.cancelled, RunSt.tickEv, hb, h1, h2, h3, h4]
+
+theorem applyAll_tick (last : SV) (l : List Nat) (s : RunSt) : (applyAll last l s).tick = s.tick + 3 * l.length := by
+  induction l generalizing s with
+  | nil => simp [applyAll]
+  | cons a r ih =>
+    have : applyAll last (a :: r) s = applyAll last r (applyAll last [a] s) := by simp [applyAll]
+    rw [this, ih]; simp [applyAll]; omega
+
+theorem runLoop_clean (cfg : Cfg) (env : Env) (last : SV) (hb : ∀ i, env.beh i = ⟨false, none, .none⟩) :
+    ∀ (l : List Nat) (s : RunSt), s.tick + 3 * l.length < env.cancelAt → s.tick + 3 * l.length < env.crashAt →
+    runLoop cfg env last l s = (applyAll last l s, .ok) := by
+  intro l
+  induction l with
+  | nil =>
+    intro s hc hd
+    have h1 : ¬ env.crashAt ≤ s.tick := by simp at hd; omega
+    have h2 : ¬ env.cancelAt ≤ s.tick := by simp at hc; omega
+    simp [runLoop, applyAll, RunSt.dead, RunSt.cancelled, h1, h2]
+  | cons a r ih =>
+    intro s hc hd
+    simp only [List.length_cons] at hc hd
+    have h1 : ¬ env.crashAt ≤ s.tick := by omega
+    have h2 : ¬ env.cancelAt ≤ s.tick := by omega
+    simp only [runLoop, RunSt.dead, RunSt.cancelled, h1, h2, decide_false, Bool.false_eq_true, if_false]
+    rw [runMigration_clean cfg env last a s (hb a) (by omega) (by omega)]
+    simp only []
+    have ht : (applyAll last [a] s).tick = s.tick + 3 := by simp [applyAll]
+    rw [ih _ (by rw [ht]; omega) (by rw [ht]; omega)]
+    simp [applyAll]
+
+theorem applyAll_cur (last : SV) (l : List Nat) (s : RunSt) (j : Nat) (hl : ∀ i ∈ l, i < 64) :
+    (applyAll last l s).cur.has j = (s.cur.has j || decide (j ∈ l)) := by
+  induction l generalizing s with
+  | nil => simp [applyAll]
+  | cons a r ih =>
+    have : applyAll last (a :: r) s = applyAll last r (applyAll last [a] s) := by simp [applyAll]
+    rw [this, ih _ (fun i hi => hl i (List.mem_cons_of_mem _ hi))]
+    have ha := hl a List.mem_cons_self
+    simp only [applyAll, List.foldl, SV.has_set, ha, decide_true, Bool.and_true, List.mem_cons]
+    by_cases h1 : j = a <;> by_cases h2 : j ∈ r <;> simp [h1, h2]
+
+theorem applyAll_md (last : SV) (l : List Nat) (s : RunSt) (h : s.disk.md = some ⟨s.cur, last⟩) :
+    (applyAll last l s).disk.md = some ⟨(applyAll last l s).cur, last⟩ := by
+  induction l generalizing s with
+  | nil => simpa [applyAll] using h
+  | cons a r ih =>
+    have : applyAll last (a :: r) s = applyAll last r (applyAll last [a] s) := by simp [applyAll]
+    rw [this]; apply ih; simp [applyAll]
+
+theorem applyAll_ist (last : SV) (l : List Nat) (s : RunSt) (j : Nat) :
+    (applyAll last l s).disk.ist j = if j ∈ l then none else s.disk.ist j := by
+  induction l generalizing s with
+  | nil => simp [applyAll]
+  | cons a r ih =>
+    have : applyAll last (a :: r) s = applyAll last r (applyAll last [a] s) := by simp [applyAll]
+    rw [this, ih]
+    by_cases h2 : j ∈ r
+    · simp [h2]
+    · by_cases h1 : j = a
+      · simp [h1, h2, applyAll, Disk.setIst]
+      · simp [h1, h2, applyAll, Disk.setIst]
+
+/-- An undisturbed `Run` applies the whole target. -/
+theorem run_undisturbed (cfg : Cfg) (reg : Registry) (env : Env) (d : Disk) (hu : env.Undisturbed) :
+    (run cfg reg env d).2 = .ok ∧
+    (run cfg reg env d).1.disk.md = some ⟨d.cur ||| reg.target, reg.target⟩ ∧
+    (∀ j, (run cfg reg env d).1.disk.ist j =
+      if reg.target.has j = true ∧ d.cur.has j = false then none else d.ist j) := by
+  have hc0 : ¬ env.crashAt ≤ 0 := by have := hu.noCrash; omega
+  have hc1 : ¬ env.crashAt ≤ 0 + 1 := by have := hu.noCrash; omega
+  unfold run
+  simp only [RunSt.dead, RunSt.tickEv, hc0, hc1, decide_false, Bool.false_eq_true, if_false]
+  split
+  · rename_i hp
+    have h0 := (SV.eq_zero_iff _).mp (by simpa using hp)
+    have hsub : ∀ j, reg.target.has j = true → d.cur.has j = true := by
+      intro j hj
+      have := h0 j
+      rw [SV.has_diff, hj] at this
+      simpa [Disk.cur] using this
+    refine ⟨rfl, ?_, ?_⟩
+    · have : d.cur ||| reg.target = d.cur := by
+        apply SV.ext_has; intro j; rw [SV.has_or]
+        cases hT : reg.target.has j
+        · simp
+        · simp [hsub j hT]
+      simp only [Disk.cur] at this ⊢
+      rw [this]
+    · intro j
+      have : ¬ (reg.target.has j = true ∧ d.cur.has j = false) := by
+        intro ⟨h1, h2⟩; rw [hsub j h1] at h2; cases h2
+      simp [this]
+  · have hlen : (SV.iter (SV.diff reg.target d.metaD.cur)).length ≤ 64 := by
+      unfold SV.iter
+      exact Nat.le_trans (List.length_filter_le _ _) (by simp)
+    have := hu.noCancel
+    have := hu.noCrash
+    rw [runLoop_clean cfg env reg.target hu.beh _ _ (by simp; omega) (by simp; omega)]
+    have hl : ∀ i ∈ SV.iter (SV.diff reg.target d.metaD.cur), i < 64 := fun i hi => SV.has_lt ((SV.mem_iter _ _).mp hi)
+    refine ⟨rfl, ?_, ?_⟩
+    · rw [applyAll_md _ _ _ rfl]
+      congr 2
+      apply SV.ext_has; intro j
+      rw [applyAll_cur _ _ _ _ hl, SV.has_or]
+      simp only [Disk.cur]
+      cases hc : d.metaD.cur.has j
+      · cases hT : reg.target.has j
+        · simp [SV.mem_iter, SV.has_diff, hc, hT]
+        · simp [SV.mem_iter, SV.has_diff, hc, hT]
+      · simp
+    · intro j
+      rw [applyAll_ist]
+      simp only [SV.mem_iter, SV.has_diff, Disk.cur, Bool.and_eq_true, Bool.not_eq_true']
+      rfl
+
+
+/-- An accepted database has every last-target bit below the registry size in the target. -/
+theorem accepted_last (cfg : Cfg) (reg : Registry) (d : Disk) (h : newRunner cfg reg d = .ok) :
+    ∀ j, j < reg.length → d.last.has j = true → reg.target.has j = true := by
+  have h1 := ((newRunner_ok_iff cfg reg d).mp h).1
+  cases hc : cfg.ignoreUnknownLast with
+  | true => exact (validateNoOptOut_pinned cfg hc _ _ _).mp h1
+  | false => intro j _ hj; exact (validateNoOptOut_fixed cfg hc _ _ _).mp h1 j hj
+
+theorem accepted_cur (cfg : Cfg) (reg : Registry) (d : Disk) (h : newRunner cfg reg d = .ok) :
+    ∀ j, d.cur.has j = true → reg.target.has j = true :=
+  (validateNoVersionDowngrade_iff _ _).mp ((newRunner_ok_iff cfg reg d).mp h).2
+
+theorem starts_mono (cfg : Cfg) (sts : List Start) : ∀ (d : Disk) (j : Nat), d.cur.has j = true →
+    (starts cfg d sts).1.cur.has j = true := by
+  induction sts with
+  | nil => intro d j h; exact h
+  | cons st rest ih => intro d j h; simp only [starts]; exact ih _ j (start_mono cfg d st j h)
+
+/-- Any history of interrupted starts followed by an undisturbed start reaches the
+metadata of an undisturbed start on the original database, with no resume token left for the target. -/
+theorem resume_runner (cfg : Cfg) (d0 : Disk) (sts : List Start) (regF : Registry) (envF : Env)
+    (hclean : d0.Clean) (hu : envF.Undisturbed)
+    (hacc : newRunner cfg regF (starts cfg d0 sts).1 = .ok) :
+    (run cfg regF envF (starts cfg d0 sts).1).2 = .ok ∧
+    (run cfg regF envF (starts cfg d0 sts).1).1.disk.md = some ⟨d0.cur ||| regF.target, regF.target⟩ ∧
+    (∀ j, regF.target.has j = true → (run cfg regF envF (starts cfg d0 sts).1).1.disk.ist j = none) := by
+  have hrun := run_undisturbed cfg regF envF (starts cfg d0 sts).1 hu
+  have hcl := starts_clean cfg sts d0 hclean
+  refine ⟨hrun.1, ?_, ?_⟩
+  · rw [hrun.2.1]
+    congr 2
+    apply SV.ext_has; intro j
+    rw [SV.has_or, SV.has_or]
+    cases hT : regF.target.has j
+    · simp only [Bool.or_false]
+      cases h1 : (starts cfg d0 sts).1.cur.has j
+      · cases h0 : d0.cur.has j
+        · rfl
+        · rw [starts_mono cfg sts d0 j h0] at h1; cases h1
+      · have := accepted_cur cfg regF _ hacc j h1
+        rw [hT] at this; cases this
+    · simp
+  · intro j hT
+    rw [hrun.2.2 j]
+    cases h1 : (starts cfg d0 sts).1.cur.has j
+    · simp [hT]
+    · simp [hT]; exact hcl j h1
+
+/-- Order facts of one start (a `Run` from an accepted database). -/
+theorem start_calls (cfg : Cfg) (d : Disk) (st : Start) :
+    (callIdxs (start cfg d st).2.1).Pairwise (· > ·) ∧
+    ∀ j c, Event.call j c ∈ (start cfg d st).2.1 →
+      st.reg.target.has j = true ∧ d.cur.has j = false ∧ c.has j = false ∧
+      (∀ i, i < j → st.reg.target.has i = true → c.has i = true ∨ InProg (start cfg d st).2.1 i) := by
+  rcases start_cases cfg d st with ⟨_, h2⟩ | ⟨_, _, s, hq, _, h2⟩
+  · rw [h2]; simp [callIdxs]
+  · rw [h2]
+    refine ⟨hq.callsDesc, ?_⟩
+    intro j c hj
+    obtain ⟨h1, h3, _, h5, h6⟩ := hq.calls j c hj
+    refine ⟨h1, ?_, h3, h6⟩
+    cases h0 : d.cur.has j with
+    | false => rfl
+    | true => rw [h5 j h0] at h3; cases h3
 
 
 end Juno.C18
